@@ -148,7 +148,7 @@ func (g *Gen) buildQueries(unit string, getVals, valNames []string) []*Query {
 		// once checked (or assumed) the fact is available to what follows. Postconditions and
 		// invariant obligations sit at the end of a path (nothing of that path follows them), so
 		// they are not added: it keeps later queries small and stable.
-		if it.Oblig && (it.Kind == "ensures" || it.Kind == "invariant" || it.Kind == "lemma") {
+		if it.Oblig && (it.Kind == "ensures" || it.Kind == "invariant" || it.Kind == "lemma" || it.Kind == "frame") {
 			continue
 		}
 		if it.F != "true" {
@@ -527,6 +527,9 @@ func summarise(rs []*QResult) []*ObligResult {
 		}
 		if r.Q.Group == "locks" {
 			name = r.Q.Unit + ".lock_discipline"
+		}
+		if r.Q.Group == "frame" {
+			name = r.Q.Unit + ".frame"
 		}
 		o := byName[name]
 		if o == nil {
